@@ -94,14 +94,49 @@ def real(case):
                     def available(self):
                         return False
                 pulp.HiGHS_CMD = NoHighs
-                pulp.LpSolverDefault = spy if cfg == "cbc" else None
-            r = call(lambda: b.dot_bracket.structure)
+                pulp.LpSolverDefault = spy if cfg in ("cbc", "tool") else None
+            if cfg == "tool":
+                r = call(lambda: printed_by_motif_extractor(seq, pairs))
+            else:
+                r = call(lambda: b.dot_bracket.structure)
         finally:
             pulp.HiGHS_CMD, pulp.LpSolverDefault = old_h, old_d
     out["res"] = r
     out["called"] = spy.called
     out["ones"] = spy.ones
     return out
+
+
+def printed_by_motif_extractor(seq, pairs):
+    """the notation the command-line tool prints for a BPSEQ file (under whatever solver configuration is in force)"""
+    import contextlib
+    import io
+    import os
+    import sys
+    import tempfile
+    from rnapolis import motif_extractor
+    fd, path = tempfile.mkstemp(suffix=".bpseq")
+    with os.fdopen(fd, "w") as f:
+        f.write(str(g1.mk_bpseq(seq, pairs)))
+    old, buf = sys.argv, io.StringIO()
+    sys.argv = ["motif_extractor", "--bpseq", path]
+    try:
+        with contextlib.redirect_stdout(buf):
+            motif_extractor.main()
+    finally:
+        sys.argv = old
+        os.unlink(path)
+    lines = buf.getvalue().splitlines()
+    k = lines.index("Full dot-bracket:")
+    block = []
+    for line in lines[k + 1:]:
+        if len(line) != len(seq) and not line.startswith(">"):
+            break
+        block.append(line)
+    cand = [x for x in block if not x.startswith(">")]
+    if len(cand) < 2 or cand[0] != seq:
+        raise ValueError("printed block is not sequence + notation: %r" % block[:3])
+    return cand[1]
 
 
 def real_history(case):
@@ -111,6 +146,14 @@ def real_history(case):
     b = g1.mk_bpseq(seq, pairs)
     if cfg == "after-ok":
         call(lambda: b.convert_to_dot_bracket(Spy("ok")).structure)
+        out["res"] = call(lambda: b.convert_to_dot_bracket(Spy(fault)).structure)
+    elif cfg == "after-ok+derivations":
+        # between the two conversions the object is asked for derived objects and views (none of them may touch it)
+        call(lambda: b.convert_to_dot_bracket(Spy("ok")).structure)
+        for name in ("without_isolated", "without_pseudoknots"):
+            call(lambda: getattr(b, name)())
+        call(lambda: b.elements)
+        call(lambda: list(b.paired(only5to3=True)))
         out["res"] = call(lambda: b.convert_to_dot_bracket(Spy(fault)).structure)
     elif cfg == "after-dot_bracket":
         call(lambda: b.dot_bracket.structure)
@@ -157,8 +200,10 @@ def run(ctx):
         combos = [(c, f) for c in ("highs", "cbc", "direct") for f in FAULTS] + [("none", "ok"), ("direct-none", "ok")]
         combos += [(c, f) for c in ("highs+bad-default", "highs+no-default") for f in ("raises", "notsolved", "ok")]
         if knotted:
+            combos += [("tool", f) for f in ("ok", "raises", "notsolved")]
             combos += [("after-ok", f) for f in ("raises", "infeasible", "incumbent-notsolved")] + \
-                      [("after-dot_bracket", f) for f in ("none", "raises", "undefined")]
+                      [("after-dot_bracket", f) for f in ("none", "raises", "undefined")] + \
+                      [("after-ok+derivations", f) for f in ("raises", "notsolved")]
         if tag == "exh" or not knotted:
             combos = rng.sample(combos, 4) + [("none", "ok")]
         for cfg, fault in combos:
